@@ -35,7 +35,7 @@ func ruleHoldPropagate(c *Ctx, r *Rule) {
 		}
 		var holdRets []*ssa.Return
 		for _, b := range do.Blocks {
-			if ret, ok := b.Instrs[len(b.Instrs)-1].(*ssa.Return); ok && len(ret.Results) == 1 {
+			if ret, ok := asReturn(b); ok && len(ret.Results) == 1 {
 				if k, ok := constInt(ret.Results[0]); ok && k == holdVal {
 					holdRets = append(holdRets, ret)
 				}
